@@ -505,39 +505,7 @@ func registerNatives(P *Program) {
 	reg("os.Exit", func(fr *frame, a []value) value { panic(pathAbort{abortExit, "os.Exit"}) })
 
 	// ---- fmt ----
-	sprintf := func(m *Machine, a []value) string {
-		format := m.str(a[0])
-		return m.format(format, a[1].([]value))
-	}
-	sprint := func(m *Machine, a []value, sep string) string {
-		var parts []string
-		for _, v := range a {
-			parts = append(parts, m.formatValue(v, 'v'))
-		}
-		return strings.Join(parts, sep)
-	}
-	reg("fmt.Sprintf", func(fr *frame, a []value) value {
-		m := fr.m
-		m.pendingSym = nil
-		out := sprintf(m, a)
-		if m.pendingSym != nil && strings.Contains(out, "\x00SYMDEC\x00") {
-			parts := strings.SplitN(out, "\x00SYMDEC\x00", 2)
-			var bs []*Term
-			bs = append(bs, m.strBytes(parts[0])...)
-			bs = append(bs, m.pendingSym...)
-			bs = append(bs, m.strBytes(parts[1])...)
-			m.pendingSym = nil
-			return m.mkString(bs)
-		}
-		return out
-	})
-	reg("fmt.Sprint", func(fr *frame, a []value) value { return sprint(fr.m, a[0].([]value), " ") })
-	reg("fmt.Sprintln", func(fr *frame, a []value) value { return sprint(fr.m, a[0].([]value), " ") + "\n" })
-	reg("fmt.Errorf", func(fr *frame, a []value) value { return fr.m.newError(sprintf(fr.m, a)) })
-	tupleNil := func(fr *frame, a []value) value { return tuple{fr.m.intConst(0), iface{}} }
-	for _, n := range []string{"fmt.Println", "fmt.Printf", "fmt.Print", "fmt.Fprintf", "fmt.Fprintln", "fmt.Fprint"} {
-		reg(n, tupleNil)
-	}
+	registerFmtNatives(P, reg)
 
 	// ---- internal/bytealg ----
 	reg("internal/bytealg.IndexByte", func(fr *frame, a []value) value {
@@ -650,6 +618,8 @@ func registerNatives(P *Program) {
 	registerReflectNatives(P, reg)
 	registerThreadNatives(P, reg)
 	registerUnicodeNatives(P, reg)
+	registerStdNatives(P, reg)
+	registerChanNatives(P, reg)
 }
 
 func (m *Machine) panicString(tp targetPanic) string {
@@ -750,119 +720,6 @@ func (m *Machine) indexSub(s, sub []*Term) value {
 		}
 	}
 	return m.intConst(-1)
-}
-
-// format is a best-effort fmt.Sprintf over interpreter values (messages are not
-// semantically relevant to any property; symbolic parts print as "?").
-func (m *Machine) format(format string, args []value) string {
-	var sb strings.Builder
-	ai := 0
-	for i := 0; i < len(format); i++ {
-		c := format[i]
-		if c != '%' {
-			sb.WriteByte(c)
-			continue
-		}
-		i++
-		for i < len(format) && strings.IndexByte("+-# 0123456789.", format[i]) >= 0 {
-			i++
-		}
-		if i >= len(format) {
-			break
-		}
-		verb := format[i]
-		if verb == '%' {
-			sb.WriteByte('%')
-			continue
-		}
-		if ai < len(args) {
-			sb.WriteString(m.formatValue(args[ai], verb))
-			ai++
-		} else {
-			sb.WriteString("%!" + string(verb) + "(MISSING)")
-		}
-	}
-	return sb.String()
-}
-
-func (m *Machine) formatValue(v value, verb byte) string {
-	switch v := v.(type) {
-	case iface:
-		if v.t == nil {
-			return "<nil>"
-		}
-		if verb == 'T' {
-			return v.t.String()
-		}
-		// error / Stringer
-		if verb == 'v' || verb == 's' {
-			if f := m.methodByName(v.t, "Error"); f != nil {
-				if s, ok := m.tryCallString(f, v.v); ok {
-					return s
-				}
-			} else if f := m.methodByName(v.t, "String"); f != nil {
-				if s, ok := m.tryCallString(f, v.v); ok {
-					return s
-				}
-			}
-		}
-		if b, ok := v.t.Underlying().(*types.Basic); ok && b.Info()&types.IsInteger != 0 && (verb == 'd' || verb == 'v') {
-			if t, ok := v.v.(*Term); ok && !t.IsConst() {
-				// the caller wants a Go string; symbolic decimal digits are carried out of band
-				m.pendingSym = m.symDecimal(t, b.Info()&types.IsUnsigned == 0)
-				return "\x00SYMDEC\x00"
-			}
-		}
-		if b, ok := v.t.Underlying().(*types.Basic); ok && b.Info()&types.IsInteger != 0 {
-			if t, ok := v.v.(*Term); ok && t.IsConst() {
-				if b.Info()&types.IsUnsigned != 0 {
-					if verb == 'x' {
-						return fmt.Sprintf("%x", t.Val)
-					}
-					return fmt.Sprint(t.Val)
-				}
-				if verb == 'x' {
-					return fmt.Sprintf("%x", t.SVal())
-				}
-				return fmt.Sprint(t.SVal())
-			}
-		}
-		return m.formatValue(v.v, verb)
-	case string:
-		if verb == 'q' {
-			return fmt.Sprintf("%q", v)
-		}
-		if verb == 'x' {
-			return fmt.Sprintf("%x", v)
-		}
-		return v
-	case symString:
-		return "?str?"
-	case *Term:
-		if v.IsConst() {
-			switch v.Sort.K {
-			case SBool:
-				return fmt.Sprint(v.Val == 1)
-			case SBV:
-				return fmt.Sprint(v.Val)
-			default:
-				return fmt.Sprint(fpConstVal(v))
-			}
-		}
-		return "?"
-	case []value:
-		var parts []string
-		for _, e := range v {
-			parts = append(parts, m.formatValue(e, verb))
-		}
-		return "[" + strings.Join(parts, " ") + "]"
-	case *value:
-		if v == nil {
-			return "<nil>"
-		}
-		return "0xptr"
-	}
-	return fmt.Sprintf("<%T>", v)
 }
 
 func (m *Machine) methodByName(t types.Type, name string) *ssa.Function {
